@@ -30,6 +30,7 @@ class FormulaMonitor:
     def __init__(self, ctx, fl):
         self.ctx, self.fl = ctx, fl
         self.expected = {}  # formula text -> generator tree
+        self.own = {}  # id(Function) -> own variables the workload gave it (ground truth)
         self.ill_formed = set()
 
     def install(self, probe):
@@ -84,7 +85,8 @@ class FormulaMonitor:
             for v in fn.engine.variables:
                 env[v.name] = v.value
         env["x"] = x
-        env.update(fn.variables)
+        # (own variables as the workload declared them when it knows the term, else as the term holds them)
+        env.update(self.own.get(id(fn), fn.variables))
         self.judge(fn, env, result, exc, "membership")
 
     def _after_evaluate(self, args, kwargs, token, result, exc):
@@ -237,8 +239,24 @@ def run(ctx):
             if F.parse(text) != tree:
                 ctx.hit("inconclusive:own parser disagrees with the generator tree")
             try:
-                route = i % 4
-                if route == 0:
+                route = i % 7
+                kv = rnd.choice([0.5, 2.0, -1.25])
+                if route >= 4 and "k" not in variables:
+                    route -= 4
+                if route >= 4:
+                    # a term that carries its own variables and only then meets its engine: built into a new engine, rebuilt from
+                    # the engine's Python representation, or given the reference explicitly
+                    fn = fl.Function("f", text, variables={"k": kv})
+                    if route == 4:
+                        engine = fl.Engine("e", input_variables=[fl.InputVariable("in0"), fl.InputVariable("in1")], output_variables=[fl.OutputVariable("out0", terms=[fn])])
+                    elif route == 5:
+                        first = fl.Engine("e", input_variables=[fl.InputVariable("in0"), fl.InputVariable("in1")], output_variables=[fl.OutputVariable("out0", terms=[fn])])
+                        engine = eval(repr(first), {"fl": fl})  # noqa: S307
+                        fn = engine.output_variables[0].terms[0]
+                    else:
+                        fn.update_reference(engine)
+                    mon.own = {id(fn): {"k": kv}}
+                elif route == 0:
                     fn = fl.Function.create("f", text, engine)
                 elif route == 1:
                     fn = fl.Function("f", text, engine, load=True)
@@ -251,8 +269,9 @@ def run(ctx):
             except Exception:
                 mon.expected.pop(text, None)
                 continue  # judged by the monitor
-            if "k" in variables:
+            if "k" in variables and route < 4:
                 fn.variables["k"] = rnd.choice([0.5, 2.0, -1.25])
+                mon.own = {}
 
             def val():
                 return rnd.choice([0.0, 1.0, -1.0, 0.5, 2.0, rnd.uniform(-3, 3), rnd.uniform(-3, 3), math.nan if rnd.random() < 0.3 else 1.5, math.inf if rnd.random() < 0.3 else 0.25])
@@ -288,6 +307,7 @@ def run(ctx):
                         pass
             # the same Function object used again: own variables changed in place, then another formula loaded into it
             if "k" in variables:
+                mon.own = {}
                 for newk in (3.0, -0.5):
                     fn.variables["k"] = newk
                     try:
@@ -303,7 +323,7 @@ def run(ctx):
                 fn.load()
                 fn.membership(val())
                 fn.evaluate({n: val() for n in variables})
-                ctx.hit("event:formula reloaded into the same term")
+                ctx.hit("event:formula reloaded into the same term", "route:4", "route:5", "route:6")
             except Exception:
                 pass
             mon.expected.pop(text2, None)
@@ -327,7 +347,7 @@ def run(ctx):
                 ctx.sample("formula", {"text": text, "postfix": fn.root.postfix() if fn.root else None, "variables": variables})
         probe.report(ctx)
         reach.report(ctx)
-    ctx.require("hook:Function.load", "hook:Function.membership", "hook:Function.evaluate", "compare:membership:scalar (generator tree)", "compare:membership:array (generator tree)", "compare:evaluate:scalar (generator tree)", "compare:rpn of the loaded tree's postfix", "ill-formed:missing operand", "ill-formed:wrong arity", "ill-formed:unbalanced parenthesis", "name clash refused", "event:term variables changed between calls", "event:formula reloaded into the same term")
+    ctx.require("hook:Function.load", "hook:Function.membership", "hook:Function.evaluate", "compare:membership:scalar (generator tree)", "compare:membership:array (generator tree)", "compare:evaluate:scalar (generator tree)", "compare:rpn of the loaded tree's postfix", "ill-formed:missing operand", "ill-formed:wrong arity", "ill-formed:unbalanced parenthesis", "name clash refused", "event:term variables changed between calls", "event:formula reloaded into the same term", "route:4", "route:5", "route:6")
     if ctx.nshards == 1:
         for k in list(F.OPERATORS) + list(F.FUNCTIONS):
             ctx.require(f"element:{k}")
